@@ -202,6 +202,9 @@ type runResult struct {
 	GotErr error
 	Raw    string
 	RawErr error
+	GotMax *classad.ClassAd // GetClassAdWithMaxSize with a generous budget
+	MaxErr error
+	SkipErr error // SkipClassAdRaw
 }
 
 func runScenario(sc scenario) (*runResult, error) {
@@ -255,6 +258,42 @@ func runScenario(sc scenario) (*runResult, error) {
 			return
 		}
 		res.Raw, res.RawErr = message.NewMessageFromStream(ps).GetClassAdRaw(ctx)
+	}()
+	func() {
+		defer func() {
+			if r := recover(); r != nil {
+				res.MaxErr = fmt.Errorf("panic: %v", r)
+			}
+		}()
+		pc := &memConn{rd: bytes.NewReader(res.Wire)}
+		ps, err := newStream(pc, sc.Key, sc.Enc)
+		if err != nil {
+			res.MaxErr = err
+			return
+		}
+		res.GotMax, res.MaxErr = message.NewMessageFromStream(ps).GetClassAdWithMaxSize(ctx, 1<<26)
+	}()
+	func() {
+		defer func() {
+			if r := recover(); r != nil {
+				res.SkipErr = fmt.Errorf("panic: %v", r)
+			}
+		}()
+		pc := &memConn{rd: bytes.NewReader(res.Wire)}
+		ps, err := newStream(pc, sc.Key, sc.Enc)
+		if err != nil {
+			res.SkipErr = err
+			return
+		}
+		rm := message.NewMessageFromStream(ps)
+		if err := rm.SkipClassAdRaw(ctx); err != nil {
+			res.SkipErr = err
+			return
+		}
+		// nothing of the ad may be left: the message must be at its end
+		if rest, err := rm.GetRemainingBytes(ctx); err != nil || len(rest) != 0 {
+			res.SkipErr = fmt.Errorf("after SkipClassAdRaw %d bytes of the message are left (%v)", len(rest), err)
+		}
 	}()
 	return res, nil
 }
@@ -372,6 +411,15 @@ func oracle(sc scenario, res *runResult) (key, msg string) {
 	}
 	if res.RawErr != nil {
 		return "peer-raw-error", fmt.Sprintf("peer GetClassAdRaw failed: %v", res.RawErr)
+	}
+	if res.MaxErr != nil {
+		return "peer-maxsize-error", fmt.Sprintf("peer GetClassAdWithMaxSize (64 MiB budget) failed: %v", res.MaxErr)
+	}
+	if res.GotMax == nil || res.GotMax.StringWithPrivate() != res.Got.StringWithPrivate() {
+		return "peer-maxsize-differs", "peer GetClassAdWithMaxSize reassembled a different ad than GetClassAd"
+	}
+	if res.SkipErr != nil {
+		return "peer-skip-error", fmt.Sprintf("peer SkipClassAdRaw: %v", res.SkipErr)
 	}
 	src, _ := buildAd(sc.Attrs)
 	for _, a := range sc.Attrs {
@@ -634,7 +682,7 @@ func gen(c *core.Ctx) error {
 	}
 
 	// 2b. the whole decision through PutClassAdWithOptions on a mock stream
-	peers := [][]int{nil, {8, 9, 13}, {9, 8, 9}, {9, 9, 0}, {9, 10, 0}, {10, 0, 0}}
+	peers := [][]int{nil, {0, 0, 0}, {0, 9, 9}, {0, 99, 99}, {8, 9, 13}, {9, 8, 9}, {9, 8, 99}, {9, 9, 0}, {9, 9, 1}, {9, 10, 0}, {10, 0, 0}, {-1, 99, 99}}
 	var sendable []string // catalogue names that survive the wire format
 	low := map[string]bool{}
 	for _, n := range cat {
@@ -795,9 +843,9 @@ func gen(c *core.Ctx) error {
 		return as
 	}
 	tbl3 := [][]string{nil, {"Name", "Cpus", "Owner", "MyType"}, {"Name", "ClaimId", "claimid", "_condor_privFoo", "Capability", "Cpus", "_CONDOR_PRIV_BAR", "TransferKey"}, {"Owner", "Cpus"}}
-	peers3 := [][]int{nil, {9, 8, 9}, {9, 9, 0}, {10, 0, 0}}
+	peers3 := [][]int{nil, {9, 8, 9}, {9, 9, 0}, {0, 0, 0}, {10, 0, 0}, {0, 9, 9}}
 	if c.Quick() {
-		peers3 = peers3[:3]
+		peers3 = peers3[:4]
 	}
 	nsc := 0
 	for k := 0; k < nAds; k++ {
